@@ -27,6 +27,17 @@ def log_entries(f):
     return [] if f == "-" else f.split(";")
 
 
+def norm_log(entries):
+    """log entries with script-file paths (on_error's third argument) replaced: every case has its own file"""
+    out = []
+    for e in entries:
+        p = e.split("|")
+        if p[1] != "-":
+            p[1] = " ".join("PATH" if (a != "e" and vlib.dec_str(a).startswith(SCRATCH)) else a for a in p[1].split(" "))
+        out.append("|".join(p))
+    return out
+
+
 def mark_kth(cmds, log, k):
     """commands in which the k-th (0-based) invocation of the un-halted log raises the flag"""
     name = vlib.dec_str(log[k].split("|")[0])
@@ -55,6 +66,40 @@ def small_family():
                 for seq in itertools.product(alpha, repeat=ln):
                     out.append((list(lines), {"c0": (True, list(seq))}))
     return out
+
+
+def replay(ck, data):
+    """vcheck Cxx --replay file: re-run the recorded case on both sides; status 1 if they still disagree"""
+    wire = data.get("wire")
+    print("script:\n" + str(data.get("script")))
+    if not wire:
+        print("replay: this file names a broken obligation, not an input; re-run the check itself")
+        return 1
+    ck.ocaml_build()
+    ck.harness_build([ck.prop.lower()])
+    m, i = ck.model([wire])[0], ck.impl([wire])[0]
+    print("model:          " + m)
+    print("implementation: " + i)
+    same = G.agree(m.split("\t"), i.split("\t")[:6], _cmds_of(wire))
+    print("REPLAY: " + ("agree now" if same else "still disagree"))
+    return 0 if same else 1
+
+
+def _cmds_of(wire):
+    """known scripted messages of a case line (for the message classification)"""
+    f = wire.split("\t")
+    cmds = {}
+    if f[5] != "-":
+        for c in f[5].split(";"):
+            n, cyc, rs = c.split("|")
+            out = []
+            if rs != "-":
+                for r in rs.split(","):
+                    r = r.lstrip("!")
+                    if r[0] in "EK":
+                        out.append((r[0], vlib.dec_str(r[1:])))
+            cmds[vlib.dec_str(n)] = (cyc == "1", out)
+    return cmds
 
 
 def run(ck):
@@ -102,13 +147,18 @@ def run(ck):
     for lines, cmds in fam:
         base.append((lines, cmds, {}, {}, " ", None))
     n_fam = len(fam)
-    for k in range(6000 if thorough else 1200):
+    for k in range(20000 if thorough else 2500):
         lines, cmds, vars_, blanks, sp = G.rand_program(rng, cyclic_p=0.5)
         src = os.path.join(SCRATCH, "p%d.ds" % k) if rng.random() < 0.2 else None
         base.append((lines, cmds, vars_, blanks, sp, src))
 
+    serial = [0]
+
     def cl(kind, p, halt_at, cmds=None, extra=()):
-        return "\t".join([G.case_line(kind, p[5], halt_at, FUEL, p[0], cmds if cmds is not None else p[1], p[2],
+        # every case gets its own script file: cases run in parallel and the harness removes the file
+        serial[0] += 1
+        src = None if p[5] is None else "%s.%d.ds" % (p[5], serial[0])
+        return "\t".join([G.case_line(kind, src, halt_at, FUEL, p[0], cmds if cmds is not None else p[1], p[2],
                                       G.render(p[0], p[3], p[4]))] + list(extra))
 
     # un-halted behaviour of every base program: final result (if it ends) and the first PROBE steps
@@ -168,13 +218,13 @@ def run(ck):
             hl = log_entries(m[4])
             if len(hl) >= 2:
                 nontriv.add("\t".join(case.split("\t")[4:7]))
-            if ulog is not None and hl != ulog[:len(hl)]:
+            if ulog is not None and norm_log(hl) != norm_log(ulog[:len(hl)]):
                 viol("theorem sanity: halted log is not a prefix of the un-halted log (extraction or driver error)",
                      (p[0], cmds, p[2], p[3], p[4], p[5]), case, m_out[k], "un-halted log: " + ";".join(ulog))
 
     # ---- (c) second thread ---------------------------------------------------------------------------
     t_cases = []
-    n_thread = 1500 if thorough else 320
+    n_thread = 5000 if thorough else 600
     pool = [b for b in range(n_corpus + n_fam, len(base)) if len(base[b][0]) >= 2]
     endless = [b for b in pool if b < len(fin) and fin[b].startswith("FUEL")]
     for k in range(n_thread):
@@ -191,9 +241,13 @@ def run(ck):
         f = o.split("\t")
         n = len(log_entries(f[4])) if len(f) >= 6 else 0
         p = base[b]
-        q.append("\t".join(["F", G.enc_opt(p[5]), str(n), "400", G.enc_prog(p[0]), G.enc_cmds(p[1]), G.enc_vars(p[2])]))
+        q.append("\t".join(["F", case.split("\t")[1], str(n), "4000", G.enc_prog(p[0]), G.enc_cmds(p[1]), G.enc_vars(p[2])]))
     cand = ck.model(q) if q else []
-    unh = ck.model([cl("P", base[b], None) for (_, b) in t_cases]) if t_cases else []
+    def unhalted(case):
+        f = case.split("\t")
+        f[0], f[2] = "P", "N"
+        return "\t".join(f[:8])
+    unh = ck.model([unhalted(c) for (c, _) in t_cases]) if t_cases else []
     for (case, b), o, c, u in zip(t_cases, t_out, cand, unh):
         p = base[b]
         stats["thread_cases"] += 1
@@ -222,7 +276,7 @@ def run(ck):
                 "command of 1-3 results over 5 results (%d base programs%s), for every k < %d of %d random programs of <= 14 lines "
                 "(50%% cyclic commands, on_error handlers), random '!' marks, flag preset before the run; thread mode: flag raised "
                 "after 0-3000 us while each invocation pauses 30 us; non-trivial = distinct case whose halted run made >= 2 invocations "
-                "before stopping" % (n_fam, "" if thorough else ", 3-line ones sampled by seed", 30 if thorough else 14, 6000 if thorough else 1200),
+                "before stopping" % (n_fam, "" if thorough else ", 3-line ones sampled by seed", 30 if thorough else 14, 20000 if thorough else 2500),
         "exhaustive": True,
         "exhaustive_part": {"base_programs": n_fam, "boundaries_each": 8},
         "samples": [G.render(base[0][0]), G.render(base[n_corpus + n_fam // 2][0]), G.render(*[base[-1][j] for j in (0, 3, 4)])],
